@@ -96,7 +96,7 @@ func (c c04Cfg) name() string {
 }
 
 func c04Scenario(c c04Cfg) *mc.Scenario {
-	return &mc.Scenario{Name: c.name(), Body: func(x *mc.X) {
+	return &mc.Scenario{Name: c.name(), NoCache: true, Body: func(x *mc.X) {
 		w := newWorld(hx.Mem, 16)
 		defer w.close()
 		// initial: /r/live exists (for updates / deletes / duplicate creates), /r/t<i> free for creates
